@@ -727,7 +727,7 @@ def reveal_impls(ctx, facts, rule):
     """Which opening routine each `Reveal` impl uses: on every malicious context (MAC-upgraded or DZKP-upgraded, sharded
     or not) the impl must go through malicious_reveal (two copies of every missing share are compared); only the
     semi-honest contexts may use semi_honest_reveal."""
-    ctx.rule(f"{rule}: every `impl Reveal<C> for ..` whose context C lives in protocol::context::malicious or dzkp_malicious calls malicious_reveal and nothing else that opens; impls for semi_honest / dzkp_semi_honest contexts call semi_honest_reveal")
+    ctx.rule(f"{rule}: every `impl Reveal<C> for ..` whose context C lives in protocol::context::malicious or dzkp_malicious calls malicious_reveal and nothing else that opens; no body other than a semi-honest Reveal impl calls semi_honest_reveal; impls for semi_honest / dzkp_semi_honest contexts call semi_honest_reveal")
     n = 0
     for p, b in sorted(facts.bodies.items()):
         m = re.search(r"basics::reveal::Reveal<protocol::context::(\w+)::(\w+)<(.*?)>>>::generic_reveal::\{closure#0\}$", p)
@@ -742,26 +742,64 @@ def reveal_impls(ctx, facts, rule):
         ok = opens == [want]
         ctx.ob(rule, short, ok, f"opens through {want}" if ok else f"this Reveal impl for a {module} context opens through {opens or 'nothing'} instead of {want}: the two copies of each missing share are not compared, so an altered opening message is accepted", site_of(b))
     ctx.floor(rule, "Reveal impls", n, 7)
+    # census: nobody else opens through the unchecked routine (check_zero, the MAC validator's opening of r and the
+    # shuffle's key opening all go through malicious_reveal today)
+    for p, b in sorted(facts.bodies.items()):
+        if facts.is_test_path(p) or not b.file.startswith("ipa-core/") or re.search(r"basics::reveal::Reveal<protocol::context::", p) or p.startswith("protocol::basics::reveal::semi_honest_reveal"):
+            continue
+        sh = [bb for bb, t in b.calls() if re.search(r"reveal::semi_honest_reveal$", F.callee(t)[0] or "")]
+        if sh:
+            ctx.count(bodies=1)
+            ctx.ob(rule, f"unchecked-open@{p.split('::{closure')[0][-90:]}", False, "semi_honest_reveal is called outside the Reveal impls of the semi-honest contexts: a value is opened from a single copy of the missing share, so a peer can open it to anything", site_of(b, sh[0]))
+
+
+BARE_MULTIPLY_USERS = {
+    # bodies outside the multiplication traits that call the unprotected replicated multiplication directly, each for a stated reason
+    "protocol::basics::mul::malicious::mac_multiply": "the MAC multiplication is two bare multiplications (x*y and rx*y) whose consistency the MAC check decides",
+    "protocol::basics::check_zero::malicious_check_zero": "check_zero multiplies by a fresh random share and reveals; it is the MAC validation's own last step",
+    "protocol::context::malicious::<impl protocol::context::upgrade::Upgradable<": "upgrade computes r*x with a bare multiplication that the MAC accumulators then cover (C04 WIRE-upgrade)",
+    "protocol::ipa_prf::shuffle::malicious::compute_and_add_tags": "shuffle tags are key*row products on semi-honest shares; the shuffle verification opens the keys and recomputes them (C05 TAG)",
+}
 
 
 def multiply_impls(ctx, facts, rule):
-    """Which multiplication each `SecureMul` impl dispatches to: the DZKP-malicious context must record the
+    """Which multiplication each impl of a multiplication trait dispatches to: the DZKP-malicious context must record the
     multiplication in the proof (zkp_multiply), the MAC-malicious context must duplicate it on r*x (mac_multiply); only
-    semi-honest contexts may use the bare sh_multiply."""
-    ctx.rule(f"{rule}: `impl SecureMul<C>`: C in dzkp_malicious -> zkp_multiply, C in malicious -> mac_multiply, C in semi_honest / dzkp_semi_honest -> sh_multiply; exactly one multiplication routine per impl")
+    semi-honest contexts may use the bare sh_multiply.  The census is over every body that calls a multiplication routine,
+    so a second trait (BooleanArrayMul, one impl per bit-array width) or a new direct user cannot slip past."""
+    ctx.rule(f"{rule}: every non-test body that calls zkp_multiply / mac_multiply / sh_multiply is either an impl of a trait in protocol::basics::mul for a context C - C in dzkp_malicious -> zkp_multiply, C in malicious -> mac_multiply, C in semi_honest / dzkp_semi_honest -> sh_multiply, exactly one routine per impl - or one of the frozen direct users of the bare multiplication, each with a reason")
     want = {"dzkp_malicious": "zkp_multiply", "malicious": "mac_multiply", "semi_honest": "sh_multiply", "dzkp_semi_honest": "sh_multiply"}
-    n = 0
+    alias = {"semi_honest_multiply": "sh_multiply"}
+    n = {"SecureMul": 0, "BooleanArrayMul": 0}
+    rx = re.compile(r"::(zkp_multiply|mac_multiply|sh_multiply|semi_honest_multiply)$")
     for p, b in sorted(facts.bodies.items()):
-        m = re.search(r"<impl protocol::basics::mul::SecureMul<protocol::context::(\w+)::(\w+)<.*>> for .*>::multiply::\{closure#0\}$", p)
-        if not m or facts.is_test_path(p):
+        if facts.is_test_path(p) or not b.file.startswith("ipa-core/"):
             continue
-        module = m.group(1)
-        muls = sorted({(F.callee(t)[0] or "").split("::")[-1] for bb, t in b.calls() if re.search(r"::(zkp_multiply|mac_multiply|sh_multiply|semi_honest_multiply|multiplication_protocol)$", F.callee(t)[0] or "")})
-        n += 1
-        ctx.count(bodies=1)
-        ok = muls == [want.get(module, "?")]
-        ctx.ob(rule, f"SecureMul<{module}::{m.group(2)}>", ok, f"dispatches to {want.get(module)}" if ok else f"SecureMul for a {module} context dispatches to {muls or 'nothing'} instead of {want.get(module)}: the multiplication is not covered by the proof / MAC of that context, so a tampered product is never detected", site_of(b))
-    ctx.floor(rule, "SecureMul impls", n, 5)
+        muls = sorted({alias.get(x, x) for x in ((F.callee(t)[0] or "").split("::")[-1] for bb, t in b.calls() if rx.search(F.callee(t)[0] or ""))})
+        m = re.search(r"protocol::basics::mul::(\w+)<protocol::context::(\w+)::(\w+)<", p)
+        if not muls and not (m and re.search(r"::multiply(::\{closure#0\})?$", p)):
+            continue
+        if m:
+            if not re.search(r"::multiply(::\{closure#0\})?$", p):
+                continue
+            if not muls and p.endswith("::multiply") and (p + "::{closure#0}") in facts.bodies:
+                continue            # async fn shell; the coroutine body is judged
+            trait, module, cty = m.group(1), m.group(2), m.group(3)
+            n[trait] = n.get(trait, 0) + 1
+            ctx.count(bodies=1)
+            ok = muls == [want.get(module, "?")]
+            width = re.search(r"boolean_array::\w+::(BA\d+)", p)
+            inst = f"{trait}<{module}::{cty}>" + (f"[{width.group(1)}]" if width else "")
+            ctx.ob(rule, inst, ok, f"dispatches to {want.get(module)}" if ok else f"{trait} for a {module} context dispatches to {muls or 'nothing'} instead of {want.get(module)}: the multiplication is not covered by the " + ("proof: a tampered product share is accepted" if module == "dzkp_malicious" else "mode's check"), site_of(b))
+            continue
+        if muls == ["sh_multiply"] or "sh_multiply" in muls:
+            if p.startswith("protocol::basics::mul::semi_honest::") or p.startswith("protocol::basics::mul::sh_multiply"):
+                continue            # the routine itself and its module
+            why = next((r for k, r in BARE_MULTIPLY_USERS.items() if p.startswith(k)), None)
+            ctx.count(bodies=1)
+            ctx.ob(rule, f"bare-multiply@{p.split('::{closure')[0][-90:]}", why is not None, why or "the unprotected replicated multiplication is called outside the multiplication traits and outside the documented direct users: under a malicious context this product is covered by neither proof nor MAC", site_of(b))
+    ctx.floor(rule, "SecureMul impls", n["SecureMul"], 5)
+    ctx.floor(rule, "BooleanArrayMul impls", n["BooleanArrayMul"], 16)
 
 
 # ---------------------------------------------------------------------------------------------
